@@ -1,5 +1,5 @@
 #!/usr/bin/env python3
-"""Maintainer tool: tools/record_matrix.py <matrix log>  -> updates seeded/*/meta.json (caught_by), seeded/MATRIX.md"""
+"""Maintainer tool: tools/record_matrix.py <matrix log> [<output file under seeded/, default MATRIX.md>]  -> updates seeded/*/meta.json (caught_by), seeded/MATRIX.md"""
 import json, os, re, sys
 V = os.path.dirname(os.path.dirname(os.path.abspath(__file__)))
 log = open(sys.argv[1]).read()
@@ -33,7 +33,8 @@ for name in sorted(os.listdir(os.path.join(V, 'seeded'))):
     meta['first_reports'] = [d for d in details.get(name, []) if not d.startswith('[C19] src/write/unit.rs:1952: X-edges')][:3]
     json.dump(meta, open(mp, 'w'), indent=1)
     rows.append((name, meta['property'], r['violation'], r['cannot_decide'], meta['first_reports'][:1]))
-with open(os.path.join(V, 'seeded', 'MATRIX.md'), 'w') as f:
+OUT = sys.argv[2] if len(sys.argv) > 2 else 'MATRIX.md'
+with open(os.path.join(V, 'seeded', OUT), 'w') as f:
     f.write('# Seeded regressions x checks\n\nEach seed was applied alone to a snapshot of /repo and all twenty quick checks were run (tools/run_matrix.sh).\n'
             '"caught" = exit 1 with a VIOLATION line; "cannot decide" = exit 2 (an anchor disappeared / a floor was missed).\n\n')
     f.write('| seed | property | caught by (VIOLATION) | cannot-decide | first report |\n|---|---|---|---|---|\n')
@@ -42,4 +43,4 @@ with open(os.path.join(V, 'seeded', 'MATRIX.md'), 'w') as f:
     own = sum(1 for name, prop, v, c, d in rows if prop in v)
     anyc = sum(1 for name, prop, v, c, d in rows if v)
     f.write('\n%d seeds; %d caught by the check of their own property; %d caught by at least one check; %d missed by every check.\n' % (len(rows), own, anyc, len(rows) - anyc))
-print(open(os.path.join(V, 'seeded', 'MATRIX.md')).read())
+print(open(os.path.join(V, 'seeded', OUT)).read()[-300:])
